@@ -2,7 +2,7 @@
     Model: Core/Run.v ([part_run]/[part_paths], [path_run]/[path_paths] mirror jaq-core/src/path.rs),
     Val/Index.v (mirrors the indexing primitives of jaq-json/src/lib.rs). *)
 From Coq Require Import List ZArith.
-From JaqV Require Import Base.Stream Val.Val Val.Err Val.Index Core.Natives Core.Run Proofs.PathLaws.
+From JaqV Require Import Base.Stream Val.Val Val.Err Val.Index Core.Natives Core.Run Proofs.PathLaws Proofs.GetpathLaws.
 Import ListNotations.
 
 (** one path part: evaluating for paths yields, in order, exactly the values that evaluating for values yields,
@@ -30,3 +30,21 @@ Example paths_example :
   collect (path_paths [(VRange None None, false); (VIndex (vint 0%Z), true)] (Arr [Arr [vint 7%Z]; vint 1%Z], []))
   = ([(vint 7%Z, [vint 0%Z; vint 0%Z])], FEnd).
 Proof. reflexivity. Qed.
+
+(** getpath (path p) = p.  [good]: objects can be addressed by their own keys (IndexMap's invariant: unique keys that are
+    equal to themselves; a NaN key is the excluded case).  One component: every (value, path) pair addresses its value ... *)
+Theorem component_addresses_its_value : forall p v pa, GetpathLaws.good v ->
+  GetpathLaws.sforall (fun xp => GetpathLaws.addressed v pa xp /\ GetpathLaws.good (fst xp)) (part_paths p (v, pa)).
+Proof. exact GetpathLaws.part_addressed. Qed.
+Print Assumptions component_addresses_its_value.
+
+(** ... and whole paths of any length, through iteration, indices, slices and optional parts: for every pair that
+    [path_value(p)] yields, [getpath] of the input along the path is exactly the value *)
+Theorem getpath_of_path : forall ps v, GetpathLaws.good v ->
+  GetpathLaws.sforall (fun xp => GetpathLaws.getpath (rev (snd xp)) v = Ok (fst xp)) (path_paths ps (v, [])).
+Proof. exact GetpathLaws.getpath_of_path. Qed.
+Print Assumptions getpath_of_path.
+
+Example good_values_exist :
+  GetpathLaws.good (Arr [vint 1%Z; Obj [(vstr [97%Z], Arr [Null; vint 2%Z]); (vint 5%Z, Bool true)]; TStr []]).
+Proof. exact GetpathLaws.good_ex. Qed.
